@@ -38,7 +38,7 @@ let res_str (pos : int) (r : node res) : string = match r with
   | Fuel -> "! timeout"
 
 (* state: build stack (top first): name, attributes, content in order; and the handle store *)
-type st = { stack : (z list * (z list * z list) list * node list) list; store : node option list }
+type st = { stack : (z list * (z list * z list) list * node list) list; store : node option list; vs : vstate }
 
 let rec attr_put k v l = match l with
   | [] -> [(k, v)]
@@ -69,13 +69,35 @@ let vop_of toks = match toks with
   | _ -> None
 
 let nslots = 6
-let vdump (s : st) : string =
+let vdump_store (store : node option list) : string =
   let b = Buffer.create 256 in
   Buffer.add_string b "v";
   for i = 0 to nslots - 1 do
-    (match sget s.store (nat_of_int i) with
+    (match sget store (nat_of_int i) with
      | None -> Buffer.add_string b " -"
      | Some n -> dump b 0 n);
+    Buffer.add_string b " ;"
+  done;
+  Buffer.contents b
+
+(* L-int: every Variant's reference count, walking the content lists *)
+let rec dump_rc (b : Buffer.t) (h : block list) (x : nat option) : unit = match x with
+  | None -> Buffer.add_string b " nul"
+  | Some id ->
+    let k = List.nth h (int_of_nat id) in
+    (match k.pl with
+     | PText _ -> Buffer.add_string b (Printf.sprintf " t%d" (int_of_nat k.rc))
+     | PElem (_, _, _, _, hs) ->
+       Buffer.add_string b (Printf.sprintf " (%d" (int_of_nat k.rc));
+       List.iter (dump_rc b h) hs;
+       Buffer.add_string b " )")
+let vdump_rc (v : vstate) : string =
+  let b = Buffer.create 256 in
+  let rec nth_slot l i = match l with [] -> None | x :: r -> if i = 0 then x else nth_slot r (i - 1) in
+  for i = 0 to nslots - 1 do
+    (match nth_slot v.slots i with
+     | None -> Buffer.add_string b " -"
+     | Some h -> dump_rc b v.hp h);
     Buffer.add_string b " ;"
   done;
   Buffer.contents b
@@ -83,7 +105,7 @@ let vdump (s : st) : string =
 let () =
   let mode = Sys.argv.(1) and file = Sys.argv.(2) in
   let spec = (mode = "spec") in
-  run_cases file (fun _ -> { stack = []; store = [] })
+  run_cases file (fun _ -> { stack = []; store = []; vs = vinit })
     (fun s _ toks ->
        match toks with
        | ["parse"; h] ->
@@ -110,9 +132,13 @@ let () =
          if spec then (if wf_tree e then emit ("rt ok" ^ dump_s 2 e) else emit "??*")
          else emit ("rt " ^ res_str 1 (roundtrip e));
          s
-       | ["vdump"] -> emit (vdump s); s
+       | ["vdump"] ->
+         (* spec: the value store of XmlSpec.vstep; model: the values the heap denotes | the reference counts *)
+         if spec then emit (vdump_store s.store)
+         else emit (vdump_store (vabs s.vs) ^ " |" ^ vdump_rc s.vs);
+         s
        | _ ->
          (match vop_of toks with
-          | Some o -> { s with store = vstep s.store o }
+          | Some o -> if spec then { s with store = vstep s.store o } else { s with vs = mstep s.vs o }
           | None -> failwith ("bad op: " ^ String.concat " " toks)))
     (fun _ -> ())
